@@ -24,6 +24,9 @@ struct GenOpts {
 
 MV gen_value(Src& s, const GenOpts& o);
 MV gen_scalar(Src& s, const GenOpts& o);
+// one container holding very many small containers of its own kind (100..700; counts around 255/256/512 dense): scanners that
+// count brackets while skipping a value see hundreds of them inside ONE value
+MV gen_many_containers(Src& s);
 MV gen_number(Src& s, bool reals);
 uint64_t gen_double_bits(Src& s);  // finite
 std::string gen_string(Src& s, bool specials, bool allow_long);
